@@ -1,18 +1,27 @@
 #!/bin/bash
 # usage: tools/benigncheck.sh <dir-with-patch.diff> <id> [props...]  — a property-PRESERVING change: every check must stay silent (rc=0)
+# The change is applied in a scratch worktree of /repo HEAD and the checks are built against that worktree
+# (same effect as applying it to /repo and reverting, without touching /repo while other runs build from it).
 D="$1"; ID="$2"; shift 2
 PROPS="${*:-C03 C05 C08 C11 C12 C13 C18 C19}"
 export GOFLAGS=-mod=mod GOPROXY=off GOSUMDB=off GOTOOLCHAIN=local
-git -C /repo apply --check "$D/patch.diff" 2>/dev/null || { echo "$ID: patch does not apply"; exit 3; }
-git -C /repo apply "$D/patch.diff"
-suite=$(cd /repo && go build ./... 2>&1 | tail -1; go test -vet=off -count=1 . 2>&1 | tail -1)
+WT=/tmp/wt/benign-$ID
+git -C /repo worktree remove --force "$WT" 2>/dev/null
+git -C /repo worktree add -q --detach "$WT" HEAD || exit 3
+git -C "$WT" apply "$D/patch.diff" 2>/dev/null || { echo "$ID: patch does not apply"; git -C /repo worktree remove --force "$WT"; exit 3; }
+suite=$(cd "$WT" && go build ./... 2>&1 | tail -1; go test -vet=off -count=1 . 2>&1 | tail -1)
+MOD=/verif/.build/benign-$ID.mod
+mkdir -p /verif/.build
+sed "s#=> /repo#=> $WT#" /verif/sim/go.mod > "$MOD"
+cat "$WT/go.sum" /verif/sim/go.sum.extra | sort -u > "${MOD%.mod}.sum"
 res=""
 for P in $PROPS; do
   R=""; [ "$P" = "C19" ] && R="-race"
-  ( cd /verif/sim && go build -tags verif $R -o /verif/.build/simkv-benign . ) || { res="$res $P:buildfail"; continue; }
-  out=$(cd /verif && VERIF_WATCHDOG_S=900 VERIF_DIR=/verif ./.build/simkv-benign check -prop $P -tier quick -no-evidence 2>&1); rc=$?
+  ( cd /verif/sim && go build -modfile="$MOD" -tags verif $R -o /verif/.build/simkv-benign-$ID . ) || { res="$res $P:buildfail"; continue; }
+  out=$(cd /verif && VERIF_WATCHDOG_S=1500 VERIF_DIR=/verif ./.build/simkv-benign-$ID check -prop $P -tier quick -no-evidence 2>&1); rc=$?
   res="$res $P:$rc"
   if [ $rc -ne 0 ]; then echo "   --- $ID $P rc=$rc"; echo "$out" | grep -A1 "^VIOLATION\|INFRA" | head -6 | cut -c1-700; fi
 done
-git -C /repo checkout -- .
+rm -f "$MOD" "${MOD%.mod}.sum" /verif/.build/simkv-benign-$ID
+git -C /repo worktree remove --force "$WT"
 echo "$ID suite=[$suite] ->$res"
